@@ -415,8 +415,8 @@ def run(tier, seed):
         explore(c, nkeys=6, nfull=2, nschnorr=4)
         light_sweep(c, 250)
     else:
-        explore(c, nkeys=120, nfull=24, nschnorr=60)
-        light_sweep(c, 6000)
+        explore(c, nkeys=70, nfull=14, nschnorr=36)
+        light_sweep(c, 3500)
     use("ct")
     return c.finish(search=lambda cc: explore(cc, 12, 3, 6))
 
